@@ -393,6 +393,60 @@ def ns_full_check(doc):
         ns_probe(mm, ns_state(mm), None, HUB.ns_orig_vqn)
 
 
+def ns_held_check(doc):
+    """Clause (c) over the names the containers *hold*: every identifier, attribute name, qualified-name value and literal datatype
+    stored in a record is a name its container has handed out (it is what every writer prints); printed and resolved again in that
+    container (on a detached copy of its manager) it must denote the same URI."""
+    hub = HUB
+    orig_vqn = hub.ns_orig_vqn
+    conts = [doc] + list(getattr(doc, "_bundles", {}).values())
+    for c in conts:
+        m = c._namespaces
+        st = ns_state(m)
+        names = {}
+        for rec in c._records:
+            qs = [rec._identifier] if rec._identifier is not None else []
+            for a, vs in rec._attributes.items():
+                qs.append(a)
+                for v in vs:
+                    if isinstance(v, QualifiedName):
+                        qs.append(v)
+                    elif isinstance(v, pm.Literal) and isinstance(v.datatype, QualifiedName):
+                        qs.append(v.datatype)
+            for q in qs:
+                if not isinstance(q, QualifiedName):
+                    continue
+                if not q.namespace.prefix and ":" in q.localpart:
+                    continue
+                names.setdefault(str(q), set()).add(q.uri)
+        if not names:
+            continue
+        clone = _clone_manager(m)
+        hub.quiet += 1
+        try:
+            for s, uris in names.items():
+                if (":" not in s and st.undisciplined) or s.startswith("_:"):
+                    continue
+                hub.counts["NS.held_checks"] += 1
+                if len(uris) > 1:
+                    hub.report("NS", "(c) one container holds the printed name %r for %d URIs %s" % (s, len(uris), sorted(uris)[:3]),
+                               {"clause": "c-held", "name": s, "uris": sorted(uris)})
+                    continue
+                u = next(iter(uris))
+                try:
+                    q = orig_vqn(clone, s)
+                except Exception as e:
+                    hub.report("NS", "(c) re-resolving the held name %r raised %s" % (s, type(e).__name__), {"clause": "c-held", "name": s, "uri": u})
+                    continue
+                got = None if q is None else q.uri
+                if got != u:
+                    hub.report("NS", "(c) a record of the container holds %r for <%s>; resolved in the container it denotes %r" % (s, u, got),
+                               {"clause": "c-held", "name": s, "held_for": u, "resolves_to": got, "container": getattr(c._identifier, "uri", None),
+                                "scope_prefixes": sorted(_registered_view(m).items()), "default": None if m._default is None else m._default.uri})
+        finally:
+            hub.quiet -= 1
+
+
 # =============================================================================================
 # NF -- normal form of records (C05)
 # =============================================================================================
